@@ -7,6 +7,7 @@ import "fmt"
 func init() {
 	vRegister("HarnessC13_interp", HarnessC13_interp)
 	vRegister("HarnessC13_env", HarnessC13_env)
+	vRegister("HarnessC13_repeatvar", HarnessC13_repeatvar)
 	vRegister("HarnessC13_missing", HarnessC13_missing)
 	vRegister("HarnessC13_witness", HarnessC13_witness)
 }
@@ -96,6 +97,76 @@ func HarnessC13_interp() {
 	vObserve("out", out["t"])
 	vAssert("C13.interp.text", vEq(out["t"], want))
 	vCover("interp.checked")
+}
+
+// HarnessC13_repeatvar: {$repeat} / {$repeat:x} inside interpolation strings,
+// in values and keys, are replaced by the repeat variable IN SCOPE at that
+// place: references that follow a nested list repeat (in evaluation order)
+// still see the enclosing variable; a reference with no enclosing repeat is
+// an error, also after a sibling list repeat has run.
+func HarnessC13_repeatvar() {
+	n := ndInt()
+	vAssume(vAnd(n >= 1, n <= 3))
+	kn := 0
+	for kn < n {
+		kn++
+	}
+	m := 1 + ndChoice(2)
+	inner := func() any {
+		return []any{map[string]any{"$repeat": m, "i": `$"i{$repeat}"`}}
+	}
+	innerWant := func() any {
+		l := []any{}
+		for j := 0; j < m; j++ {
+			l = append(l, map[string]any{"i": fmt.Sprintf("i%d", j)})
+		}
+		return l
+	}
+	switch ndChoice(4) {
+	case 0: // document-level repeat; references before and after the nested list, and in a key
+		doc := map[string]any{"$repeat": n, "before": `$"b{$repeat}"`, "l": inner(), "zz": `$"z{$repeat}-{$repeat}"`, `$"k{$repeat}"`: 1}
+		want := []any{}
+		for i := 0; i < kn; i++ {
+			want = append(want, map[string]any{"before": fmt.Sprintf("b%d", i), "l": innerWant(), "zz": fmt.Sprintf("z%d-%d", i, i), fmt.Sprintf("k%d", i): 1})
+		}
+		got, err := c06Eval(doc)
+		vObserve("got", got)
+		vAssert("C13.repeatvar.accepted", err == nil)
+		vAssert("C13.repeatvar.doc", vEq(got, want))
+		vCover("repeatvar.doc")
+	case 1: // named counts
+		doc := map[string]any{"$repeat": map[string]any{"x": n, "y": 2}, "l": inner(), "zz": `$"{$repeat:x}/{$repeat:y}"`}
+		want := []any{}
+		for i := 0; i < kn; i++ {
+			for j := 0; j < 2; j++ {
+				want = append(want, map[string]any{"l": innerWant(), "zz": fmt.Sprintf("%d/%d", i, j)})
+			}
+		}
+		got, err := c06Eval(doc)
+		vObserve("got", got)
+		vAssert("C13.repeatvar.accepted", err == nil)
+		vAssert("C13.repeatvar.named", vEq(got, want))
+		vCover("repeatvar.named")
+	case 2: // map-entry repeat around the nested list
+		doc := map[string]any{"o": map[string]any{`$"p{$repeat}"`: map[string]any{"$repeat": n, "l": inner(), "zz": `$"z{$repeat}"`}}}
+		mm := map[string]any{}
+		for i := 0; i < kn; i++ {
+			mm[fmt.Sprintf("p%d", i)] = map[string]any{"l": innerWant(), "zz": fmt.Sprintf("z%d", i)}
+		}
+		got, err := c06Eval(doc)
+		vObserve("got", got)
+		vAssert("C13.repeatvar.accepted", err == nil)
+		vAssert("C13.repeatvar.map", vEq(got, []any{map[string]any{"o": mm}}))
+		vCover("repeatvar.map")
+	default: // no enclosing repeat: an error, even after a sibling list repeat
+		doc := map[string]any{"l": inner(), "zz": `$"z{$repeat}"`}
+		if ndChoice(2) == 1 {
+			doc = map[string]any{"l": inner(), "zz": "$repeat"}
+		}
+		_, err := c06Eval(doc)
+		vAssert("C13.repeatvar.outofscope", err != nil)
+		vCover("repeatvar.outofscope")
+	}
 }
 
 // HarnessC13_env: $env:NAME as a whole value and as a key is the variable's
